@@ -47,6 +47,11 @@ func run(rc *kernel.RunCtx) {
 
 		return
 	}
+	if tp.Bool(1, 300) {
+		runSemaLarge(rc, k)
+
+		return
+	}
 	switch tp.Choose(5) {
 	case 0, 1:
 		runOnce(rc, k)
@@ -329,6 +334,46 @@ func runOnceManyKeys(rc *kernel.RunCtx, k *kernel.Kernel) {
 }
 
 var errCtor = errors.New("verif: constructor failed")
+
+// runSemaLarge is a sequential history over a semaphore with a large limit (no
+// scheduler: the hooks are no-ops outside Kernel.Run): n Acquires succeed, the
+// next one - on a context that is done, so that it cannot wait - must not.
+func runSemaLarge(rc *kernel.RunCtx, k *kernel.Kernel) {
+	tp := rc.Tape
+	n := []int{2, 3, 64, 65, 127, 128, 255, 256, 257, 258, 511, 513, 1000, 1023, 1025}[tp.Choose(15)]
+	rc.Stats.Probe("sema-large-limit")
+	sem := syncutil.NewChanSemaphore(uint(n))
+	done, cancel := context.WithCancel(context.Background())
+	cancel()
+	held := 0
+	for i := 0; i < n+3; i++ {
+		// While slots are free a done context may or may not win the select
+		// (two ready cases); once n are held it has to.
+		err := sem.Acquire(done)
+		if err == nil {
+			held++
+		}
+		if held > n {
+			k.Fail("too-many-holders", "ChanSemaphore.Acquire",
+				kernel.Itoa(held)+" successful Acquires are outstanding on a semaphore of capacity "+kernel.Itoa(n))
+
+			break
+		}
+		if err != nil && held < n {
+			// Lost the coin toss: take the slot with a live context.
+			if sem.Acquire(context.Background()) == nil {
+				held++
+			}
+		}
+	}
+	for ; held > 0; held-- {
+		sem.Release()
+	}
+	k.Logf("sema: limit ", kernel.Itoa(n), " sequentially")
+	rc.Adopt(k)
+	rc.NonTrivial = false
+	rc.Nondet = true
+}
 
 func safeGet(oc *syncutil.OnceConstructor[int, any], key int) (v any, pv any, stack string) {
 	defer func() {
